@@ -36,6 +36,13 @@ ASSUMPTIONS = ['lamb > 0', 'e=None so that only nswp / cb stop the constant-rank
 DOC_STOPS = ('nswp', 'e', 'e_vld', 'cb')
 
 
+def _tol(lamb):
+    """Agreement of two mathematically equal ALS runs: rounding (different summation order) amplified by the conditioning
+    of the ridge systems, which grows like 1/lamb (observed up to 4e-6 at lamb = 1e-3 on under-determined layouts); a real
+    order / restart dependence is of order 1e-1."""
+    return min(1e-3, max(1e-8, 1e-7 / lamb))
+
+
 def yvals(I, occ):
     I = np.asarray(I, dtype=float)
     w = np.arange(1, I.shape[1] + 1)
@@ -147,7 +154,7 @@ def check_layout(c):
             Z, _ = _als(pts, y, snap.Y[a - 1], N - a, lamb, w)
             res.tr(N - a)
             rr = _rel(Z, Y)
-            res.check(rr <= 1e-8, 'restart', cfg, lambda: '%d+%d sweeps differ from %d sweeps by %.3e' % (a, N - a, N, rr), tags)
+            res.check(rr <= _tol(lamb), 'restart', cfg, lambda: '%d+%d sweeps differ from %d sweeps by %.3e' % (a, N - a, N, rr), tags)
         # order independence over EVERY ordering
         if c.get('perms', True):
             for pm in perms[1:]:
@@ -158,7 +165,7 @@ def check_layout(c):
                 Z, _ = _als(P, yp, Y0, N, lamb, wp)
                 res.tr(N)
                 rr = _rel(Z, Y)
-                res.check(rr <= 1e-8, 'order', cfg,
+                res.check(rr <= _tol(lamb), 'order', cfg,
                           lambda: 'ordering %s changes the result by %.3e' % (list(pm), rr), tags + ['order'])
                 g, sc = grad_core(Z, 1, P, yp, lamb, wp)
                 has = [v for v in range(shape[1]) if any(p[1] == v for p in P)]
@@ -343,12 +350,12 @@ def check_func(c):
             Z, _ = _alsf(X, y, traj[a], N - a, lamb)
             res.tr()
             rr = _relf(Z, A)
-            res.check(rr <= 1e-7, 'func.restart', cfg, lambda: '%d+%d sweeps differ from %d by %.3e' % (a, N - a, N, rr), tags)
+            res.check(rr <= 10 * _tol(lamb), 'func.restart', cfg, lambda: '%d+%d sweeps differ from %d by %.3e' % (a, N - a, N, rr), tags)
         for pm in perms[1:]:
             res.ev()
             Z, _ = _alsf(X[list(pm)], y[list(pm)], A0, N, lamb)
             rr = _relf(Z, A)
-            res.check(rr <= 1e-7, 'func.order', cfg, lambda: 'ordering %s changes the result by %.3e' % (list(pm), rr), tags)
+            res.check(rr <= 10 * _tol(lamb), 'func.order', cfg, lambda: 'ordering %s changes the result by %.3e' % (list(pm), rr), tags)
         res.ev()
         Z, inf = _alsf(X, y, A0, N, lamb, e=1e-16)
         res.check(inf.get('stop') in ('nswp', 'e', 'e_vld') and 1 <= inf.get('nswp') <= N, 'func.info.default_e', cfg, lambda: repr(inf), tags)
